@@ -133,9 +133,11 @@ func (x *Exec) callContract(st *State, con *Contract, callee *ssa.Function, args
 			vars[fv.Name()] = x.loadAddr(st, a)
 		}
 	}
+	cpn := paramNames(callee, x.w.Contracts[fnKey(x.w.pkgOfFn(callee), callee)])
 	for i, p := range callee.Params {
 		if i < len(args) {
 			vars[p.Name()] = args[i]
+			vars[cpn[i]] = args[i]
 		}
 	}
 	short := con.Key[strings.Index(con.Key, ".")+1:]
@@ -333,8 +335,9 @@ func (x *Exec) modKeys(callee *ssa.Function, m string, keys map[string]bool) {
 	cx := x.cx
 	parts := strings.Split(m, ".")
 	var cur types.Type
-	for _, p := range callee.Params {
-		if p.Name() == parts[0] {
+	cpn := paramNames(callee, x.w.Contracts[fnKey(x.w.pkgOfFn(callee), callee)])
+	for i, p := range callee.Params {
+		if p.Name() == parts[0] || cpn[i] == parts[0] {
 			cur = p.Type()
 		}
 	}
